@@ -69,6 +69,8 @@ class Transport(httpx.AsyncBaseTransport):
             if o == "5xx":
                 return httpx.Response(503, text="down", request=request)
             tok = {"access_token": "at%d" % k, "token_type": "Bearer", "expires_in": 3600}
+            if getattr(self, "no_expiry", False):
+                del tok["expires_in"]
             if o == "rot":
                 tok["refresh_token"] = "rt%d" % k
             return httpx.Response(200, json=tok)
@@ -133,6 +135,7 @@ def scenario(cfg, n, outcomes, kinds=None, yields=1):
     async def main():
         log = []
         transport = Transport(log, outcomes, yields)
+        transport.no_expiry = bool(cfg.get("resp_no_expiry"))     # a success response without expires_in (RFC 6749: RECOMMENDED, not required)
         client, cb_calls = make_client(cfg, log, transport)
         results = {}
 
